@@ -11,3 +11,8 @@ open Just.Props.C15
 #print axioms import_contributes
 #print axioms loader_terminates
 #print axioms path_spelling_irrelevant
+#print axioms loaded_chains_nodup
+#print axioms insertDef_mem
+#print axioms insertDef_inv
+#print axioms dedup_inv
+#print axioms recipesOf_file
